@@ -56,8 +56,12 @@ fn register_document(ctx: &mut LspContext, uri: &Url, source: &str) {
     ctx.perform_codegen();
 }
 
-fn publish_diagnostics(ctx: &LspContext) -> MosResult<()> {
+fn publish_diagnostics(ctx: &mut LspContext) -> MosResult<()> {
     log::trace!("Publish diagnostics");
+
+    // Whatever was published last time and is not published again below (because the file is no longer part of
+    // the project) needs to be cleared
+    let mut no_longer_published = std::mem::take(&mut ctx.published_diagnostics);
 
     let mut result: HashMap<String, Vec<Diagnostic>> =
         to_diagnostics(&ctx.error).into_iter().into_group_map();
@@ -74,6 +78,8 @@ fn publish_diagnostics(ctx: &LspContext) -> MosResult<()> {
         // Publish errors (or no errors!) for every file
         for filename in filenames {
             let diags = result.remove(filename.as_str()).unwrap_or_default();
+            no_longer_published.remove(&filename);
+            ctx.published_diagnostics.insert(filename.clone());
             let params = PublishDiagnosticsParams::new(
                 Url::from_file_path(filename).unwrap(),
                 diags,
@@ -81,6 +87,12 @@ fn publish_diagnostics(ctx: &LspContext) -> MosResult<()> {
             );
             ctx.publish_notification::<PublishDiagnostics>(params)?;
         }
+    }
+
+    for filename in no_longer_published {
+        let params =
+            PublishDiagnosticsParams::new(Url::from_file_path(filename).unwrap(), vec![], None);
+        ctx.publish_notification::<PublishDiagnostics>(params)?;
     }
     Ok(())
 }
